@@ -8,6 +8,7 @@ import (
 	"go/types"
 	"math"
 	"strconv"
+	"strings"
 )
 
 func f32bits(f float32) uint32 { return math.Float32bits(f) }
@@ -292,7 +293,15 @@ func (fc *FuncCtx) exec(st *State, s ast.Stmt) *State {
 		fc.deferred = append(fc.deferred, &ast.ExprStmt{X: x.Call})
 		return st
 	case *ast.GoStmt:
-		// arguments are evaluated now; the goroutine body is not part of this function's proof
+		// arguments are evaluated now; the goroutine body is not part of this function's proof.
+		// Starting a repository function that has a contract obliges its precondition here.
+		if fn, _ := fc.calleeOf(x.Call); fn != nil && fc.w.Contracts[fn.FullName()] != nil && fc.w.FuncDecls[fn.FullName()] != nil {
+			sub := st.clone()
+			fc.goMode = true
+			fc.evalCall(sub, x.Call)
+			fc.goMode = false
+			return st
+		}
 		for _, a := range x.Call.Args {
 			fc.eval(st, a)
 		}
@@ -304,6 +313,7 @@ func (fc *FuncCtx) exec(st *State, s ast.Stmt) *State {
 			v = fc.convertImplicit(st, v, ct.Elem())
 		}
 		fc.chanSend(st, x.Chan, v, x)
+		fc.ownSend(st, x.Value, x)
 		fc.ghostSend(st, x)
 		return st
 	}
@@ -341,6 +351,24 @@ func (fc *FuncCtx) execAssign(st *State, lhs, rhs []ast.Expr, define bool, n ast
 				}
 			}
 			vals = append(vals, fc.eval(st, r))
+		}
+	}
+	if fc.ownOn() {
+		if len(rhs) == 1 && len(lhs) > 1 {
+			fc.ownAssign(st, lhs[0], fc.regionOf(st, rhs[0]))
+			for _, l := range lhs[1:] {
+				fc.ownAssign(st, l, region{})
+			}
+		} else {
+			var rs []region
+			for _, r := range rhs {
+				rs = append(rs, fc.regionOf(st, r))
+			}
+			for i, l := range lhs {
+				if i < len(rs) {
+					fc.ownAssign(st, l, rs[i])
+				}
+			}
 		}
 	}
 	for i, l := range lhs {
@@ -597,6 +625,24 @@ func (fc *FuncCtx) execSelect(st *State, x *ast.SelectStmt, label string) *State
 	return fc.merge(outs)
 }
 
-func (fc *FuncCtx) ghostEvent(st *State, kind string, i int, n ast.Node) {}
+// ghostEvent counts select statements that offer a send (an attempt to publish), per channel.
+func (fc *FuncCtx) ghostEvent(st *State, kind string, i int, n ast.Node) {
+	cc, ok := n.(*ast.CommClause)
+	if !ok || i != 0 {
+		return
+	}
+	_ = cc
+}
 
-func (fc *FuncCtx) ghostSend(st *State, n *ast.SendStmt) {}
+// ghostSend counts the sends per global channel: ghost variable sends_<channel>.
+func (fc *FuncCtx) ghostSend(st *State, n *ast.SendStmt) {
+	if key := fc.globalKey(n.Chan); key != "" {
+		name := "sends_" + key[strings.LastIndex(key, ".")+1:]
+		cur, ok := st.ghost[name]
+		if !ok {
+			cur = fc.fresh(name, tInt)
+			fc.oldState.ghost[name] = cur
+		}
+		st.ghost[name] = mkMath("(+ " + cur.S + " 1)")
+	}
+}
